@@ -145,7 +145,9 @@ func c14setup(seed int64, secret string, profiling bool) (*c14env, error) {
 		return nil, err
 	}
 	e := &c14env{sys: sys, pipe: idle.Name}
-	vars := map[string]interface{}{"secretvar": "VAR-" + mark}
+	// the variables make every job listing / job detail / log response larger than 64 KiB (responses of that size take
+	// other paths through buffers and pools than small ones); the marker is repeated throughout
+	vars := map[string]interface{}{"secretvar": "VAR-" + mark, "blob": strings.Repeat("BLOB-"+mark+"-", 6000)}
 	id1, _ := sys.Schedule(0, pname, vars, "user-"+mark)
 	if _, err := sys.Quiesce(core.QuiesceOpts{}); err != nil {
 		return nil, err
@@ -157,6 +159,9 @@ func c14setup(seed int64, secret string, profiling bool) (*c14env, error) {
 	e.done = id1
 	w, _ := out.Writer(id1, "build-"+mark, "stdout")
 	fmt.Fprintf(w, "LOG-%s line\n", mark)
+	for i := 0; i < 3000; i++ {
+		fmt.Fprintf(w, "LOG-%s line %d of a long log\n", mark, i)
+	}
 	w.Close()
 	e.running, _ = sys.Schedule(0, pname, vars, "user-"+mark)
 	e.waiting, _ = sys.Schedule(0, pname, vars, "user-"+mark)
@@ -488,7 +493,7 @@ func runC14(tier string, seed int64) *Outcome {
 func init() {
 	register(&Check{
 		ID: "C14", Level: "exploration",
-		Rule:        "exhaustive product over: every route pattern discovered with chi.Walk on the real router (hook H3; the run is invalid if fewer than the six known API routes are found) x methods {GET,POST,PUT,PATCH,DELETE,HEAD,OPTIONS} x ~27 invalid credential classes (none, empty bearer, garbage, 2 / 4 segments, other secret, truncated / bit-flipped signature, payload modified after signing, alg none (3 spellings / signatures), HS384 / HS512 with the right secret, RS256 / ES256 headers, expired, not yet valid, basic auth, the secret itself, random single-character edits of a valid token) x transports {Authorization header, cookie jwt, query ?jwt=} x profiling on/off x 3 secrets (16, 33, 100+ bytes incl. non-ASCII), against the real http.Handler of server.NewServer on a runner that holds a running, a waiting and a finished job with log output. Requests are built to be effective if accepted (schedule an existing pipeline, cancel the running job, read real logs). Oracle: status 401, body free of planted markers (job ids, pipeline / task names, variable values, log lines), runner state (jobs, flags, pipeline list) unchanged; /debug/* answers 404 with profiling off; positive control with a valid token via header and cookie; every judged invalid request is also repeated directly after the same request was answered for a valid token (header / cookie), so that state kept between requests (caches, sessions) cannot open a route. Borderline classes (iat in the future, lower-case 'bearer') are sent and their outcome recorded but never judged. A situation is (method, pattern, registered?, credential family, transport, profiling)",
+		Rule:        "exhaustive product over: every route pattern discovered with chi.Walk on the real router (hook H3; the run is invalid if fewer than the six known API routes are found) x methods {GET,POST,PUT,PATCH,DELETE,HEAD,OPTIONS} x ~27 invalid credential classes (none, empty bearer, garbage, 2 / 4 segments, other secret, truncated / bit-flipped signature, payload modified after signing, alg none (3 spellings / signatures), HS384 / HS512 with the right secret, RS256 / ES256 headers, expired, not yet valid, basic auth, the secret itself, random single-character edits of a valid token) x transports {Authorization header, cookie jwt, query ?jwt=} x profiling on/off x 3 secrets (16, 33, 100+ bytes incl. non-ASCII), against the real http.Handler of server.NewServer on a runner that holds a running, a waiting and a finished job with log output (job variables and logs large enough that every authenticated listing / detail / log response exceeds 64 KiB). Requests are built to be effective if accepted (schedule an existing pipeline, cancel the running job, read real logs). Oracle: status 401, body free of planted markers (job ids, pipeline / task names, variable values, log lines), runner state (jobs, flags, pipeline list) unchanged; /debug/* answers 404 with profiling off; positive control with a valid token via header and cookie; every judged invalid request is also repeated directly after the same request was answered for a valid token (header / cookie), so that state kept between requests (caches, sessions) cannot open a route. Borderline classes (iat in the future, lower-case 'bearer') are sent and their outcome recorded but never judged. A situation is (method, pattern, registered?, credential family, transport, profiling)",
 		Assumptions: []string{"the listener's bind address and TLS are outside the handler and not examined"},
 		Custom:      runC14,
 		MinDistinct: 200,
